@@ -264,7 +264,10 @@ class CFG:
             self._preds = p
         return self._preds
 
-    def reachable(self, start: int, blocked: Callable[[Node], bool] | None = None) -> set[int]:
+    def reachable(self, start: int, blocked: Callable[[Node], bool] | None = None,
+                  edge_blocked: Callable[[Node, str], bool] | None = None) -> set[int]:
+        """Nodes reachable from start. `blocked(node)` nodes are not entered (start itself
+        excepted); `edge_blocked(node, label)` edges are not followed."""
         seen: set[int] = set()
         stack = [start]
         while stack:
@@ -275,47 +278,32 @@ class CFG:
             if blocked is not None and n != start and blocked(node):
                 continue
             seen.add(n)
-            stack.extend(node.succ)
+            for s, lab in zip(node.succ, node.succ_label):
+                if edge_blocked is not None and edge_blocked(node, lab):
+                    continue
+                stack.append(s)
         return seen
 
     def stmt_nodes(self) -> Iterable[Node]:
         return (n for n in self.nodes if n.ast is not None)
 
     def nodes_for(self, target: ast.AST) -> list[Node]:
-        """CFG nodes whose ast *contains* target (finally duplication -> several)."""
-        out = []
-        for n in self.nodes:
-            if n.ast is None or n.kind == "join":
-                continue
-            if n.ast is target:
-                out.append(n)
-                continue
-            if isinstance(n.ast, (ast.With, ast.AsyncWith)) and getattr(n, "with_header", False):
-                if any(target is x for i in n.ast.items for x in ast.walk(i)):
-                    out.append(n)
-                continue
-            if isinstance(n.ast, (ast.For, ast.AsyncFor)):
-                if any(target is x for x in ast.walk(n.ast.target)):
-                    out.append(n)
-                continue
-            if isinstance(n.ast, ast.excepthandler):
-                continue
-            if isinstance(n.ast, (ast.FunctionDef, ast.AsyncFunctionDef, ast.ClassDef)):
-                continue
-            if any(target is x for x in ast.walk(n.ast)):
-                out.append(n)
-        return out
+        """CFG nodes that evaluate `target` (finally duplication -> possibly several)."""
+        return [n for n in self.nodes if node_contains(n, target)]
 
-    def every_path_to_exit_passes(self, pred: Callable[[Node], bool]) -> bool:
+    def every_path_to_exit_passes(self, pred: Callable[[Node], bool],
+                                  edge_blocked: Callable[[Node, str], bool] | None = None) -> bool:
         """True iff every path entry -> normal exit contains a node satisfying pred."""
-        r = self.reachable(self.entry, blocked=pred)
+        r = self.reachable(self.entry, blocked=pred, edge_blocked=edge_blocked)
         return self.exit not in r
 
-    def dominated_by(self, target: Node, pred: Callable[[Node], bool]) -> bool:
-        """True iff every path entry -> target contains an earlier node satisfying pred."""
+    def dominated_by(self, target: Node, pred: Callable[[Node], bool],
+                     edge_blocked: Callable[[Node, str], bool] | None = None) -> bool:
+        """True iff every path entry -> target contains an earlier node satisfying pred
+        (paths through `edge_blocked` edges are exempt)."""
         if pred(target):
             return True
-        r = self.reachable(self.entry, blocked=pred)
+        r = self.reachable(self.entry, blocked=pred, edge_blocked=edge_blocked)
         return target.id not in r
 
     def exit_reachable(self) -> bool:
@@ -444,3 +432,53 @@ def in_finally(fn: ast.AST, target: ast.AST) -> bool:
                 if any(x is target for x in ast.walk(st)):
                     return True
     return False
+
+
+# ---------------------------------------------------------------- node content helpers
+def node_exprs(n: Node) -> list[ast.AST]:
+    """The sub-trees that are *evaluated at* this CFG node (no nested bodies)."""
+    a = n.ast
+    if a is None or n.kind == "join":
+        return []
+    if isinstance(a, (ast.For, ast.AsyncFor)):
+        return [a.target]
+    if isinstance(a, (ast.With, ast.AsyncWith)):
+        out: list[ast.AST] = []
+        for it in a.items:
+            out.append(it.context_expr)
+            if it.optional_vars is not None:
+                out.append(it.optional_vars)
+        return out
+    if isinstance(a, ast.excepthandler):
+        return [a.type] if a.type is not None else []
+    if isinstance(a, (ast.FunctionDef, ast.AsyncFunctionDef, ast.ClassDef)):
+        return list(a.decorator_list)
+    if isinstance(a, ast.pattern):
+        g = getattr(n, "guard", None)
+        return [a] + ([g] if g is not None else [])
+    return [a]
+
+
+def node_calls(n: Node) -> list[ast.Call]:
+    from .index import walk_no_nested
+
+    out = []
+    for e in node_exprs(n):
+        for x in walk_no_nested(e):
+            if isinstance(x, ast.Call):
+                out.append(x)
+    return out
+
+
+def calls_any(names: set[str]) -> Callable[[Node], bool]:
+    """Predicate: the node evaluates a call whose callee's last name component is in names."""
+    from .index import call_name
+
+    def pred(n: Node) -> bool:
+        return any(call_name(c) in names for c in node_calls(n))
+
+    return pred
+
+
+def node_contains(n: Node, target: ast.AST) -> bool:
+    return any(x is target for e in node_exprs(n) for x in ast.walk(e))
